@@ -163,3 +163,10 @@ Proof.
     rewrite bcmp_antisym, (d_nan_l b a s r Ha Na). reflexivity.
   - apply d_nn; assumption.
 Qed.
+
+Theorem G_float64_asc_order :
+  sd_order (fun a b => Z.compare (f64_okey a) (f64_okey b)) (G_EncodeFloat64Ascending []) f64_range.
+Proof. intros a b r s Ha Hb. rewrite !G_float64_asc_shape by assumption. apply enc_f64a_order; assumption. Qed.
+Theorem G_float64_desc_order :
+  sd_order (fun a b => Z.compare (f64_okey_d a) (f64_okey_d b)) (G_EncodeFloat64Descending []) f64_range.
+Proof. intros a b r s Ha Hb. rewrite !G_float64_desc_shape by assumption. apply enc_f64d_order; assumption. Qed.
